@@ -25,7 +25,7 @@ def queries(tier):
                                  '%s(%d), all %d measured flags symbolic: refusal rule, state/log/draws untouched on refusal, flag updates' % (kn, q, n), tier))
     import E2_common
     qs += E2_common.book_active_queries(tier)
-    # E2_common.measure_stmt_queries (exec of a MeasureStatement) is not registered: propositional reduction does not finish (900 s, 30 GB)
+    qs += E2_common.measure_stmt_queries(tier)
     return qs
 
 
@@ -35,7 +35,7 @@ META = dict(
     assumptions=['FP results arbitrary (havoc); operator new never fails and returns zeroed memory',
                  'simulator level only: the evaluator keeps a second copy of the flag (checked by the evaluator queries when present)'],
     bounds={'n': '2 quick / 1..3 thorough'},
-    outside=['the evaluator\'s measure / reset / gate statement handlers and every way of naming the qubit in a program (exec of a single MeasureStatement: no verdict in 900 s, 30 GB)'],
+    outside=['naming the qubit through index expressions / parameters / object fields inside larger programs (the variable and qubit[] forms of the measure statement are driven through exec)', 'reset and gate statement handlers of the evaluator'],
 )
 
 
